@@ -240,6 +240,43 @@ func verifyFunction(L *Loaded, fn *ssa.Function, fs *FuncSpec) (res *FuncResult)
 
 func (vc *VC) isGhostHeap(h string) bool { return false }
 
+// verifyLemma proves a lemma: its body holds for all values of its parameters in every
+// well-typed state.
+func verifyLemma(L *Loaded, d *SpecDecl) (res *FuncResult) {
+	fn := L.SPkg.Func("__lemma_" + d.Name)
+	res = &FuncResult{Name: "lemma " + d.Name, Spec: &FuncSpec{Target: "lemma " + d.Name, Serves: d.Serves}}
+	if fn == nil {
+		res.Err = "lemma function missing (stale)"
+		return
+	}
+	vc := newVC(L, fn)
+	res.VC = vc
+	defer func() {
+		if r := recover(); r != nil {
+			if u, ok := r.(unsupported); ok {
+				res.Err = u.msg
+				res.Obls = nil
+				return
+			}
+			panic(r)
+		}
+	}()
+	st0 := &State{heaps: map[string]Term{}, roots: map[string][]string{}, cells: map[int]Val{}, epoch: 0}
+	st0.nalloc = vc.declare("nalloc!0", SInt)
+	vc.assume(Term{"(>= nalloc!0 0)", SBool})
+	vc.rootBound["!e0"] = st0.nalloc
+	var args []Val
+	for _, p := range fn.Params {
+		v := vc.freshVal("arg_"+p.Name(), p.Type())
+		args = append(args, v)
+		vc.assumeWFVal(st0, v, p.Type())
+	}
+	r := vc.evalSpec(fn, args, st0, st0)
+	vc.obligeSplit("lemma", "lemma("+d.Name+")", tTrue, r.T, nil)
+	res.Obls = vc.obls
+	return res
+}
+
 func (vc *VC) checkExit(fs *FuncSpec, fname, suffix string, exits []Exit, args []Val, st0 *State, hasPanics bool, P Term) {
 	var conds []Term
 	var sts []*State
